@@ -23,3 +23,21 @@ CLAIMS = {
         "deviant inputs are replayed on the real code on every run. Exhaustive sweep of all filter x name pairs up to 3/4 levels over "
         "{a,b,'',+,#} and random histories tie model, code and specification"),
 }
+
+_BROKER_TEXT = ("Sequential Lean model of the broker (handleConnection/getSession/processIncoming/stop, over decoded packets) tied to "
+                "the real service.Server by differential runs over net.Pipe with PINGREQ barriers, and compared event by event with "
+                "a reference broker written from MQTT 3.1.1 and the property text (oracle: membership where the property leaves a "
+                "choice). %s Schedules are represented only by event order (one event = one atomic step; that atomicity rests on the "
+                "lock discipline of C18).")
+_BROKER = {
+ 'C01': "Theorems: under construction (fan-out characterisation over the C06 trie theorems).",
+ 'C02': "Theorems: under construction (QoS 1/2 receiver flows, FIFO hand-over of QoS 2).",
+ 'C07': "Theorems: under construction (one SUBACK/UNSUBACK per request, codes per filter).",
+ 'C08': "Theorems: under construction (retained store = last non-empty retained publish; delivery after SUBACK).",
+ 'C09': "Theorems: under construction (will published exactly once on abnormal end, never after DISCONNECT, from the current CONNECT).",
+ 'C10': "Theorems: under construction (SessionPresent, clean-session discard, resubscription).",
+ 'C11': "Theorems: under construction (CONNACK table; refused first packets leave the state unchanged).",
+}
+for _k, _t in _BROKER.items():
+    CLAIMS[_k] = dict(category='exploration', ref='5 Core E, 8 ' + _k, text=_BROKER_TEXT % _t,
+                      technique="Lean 4 executable model + reference specification, differential correspondence to the real broker; proofs in progress")
